@@ -155,6 +155,8 @@ void World::apply(int i, const Op& op) {
 		if (plan.wp.avoid.count("status_mark_on_inactive_state") && !n.isActive(op.a)) break;
 		{ Ev e; e.k = op.kind == OP_SUCCEED ? EV_SUCCEED : EV_FAIL; e.state = -1; e.a = op.a; h.push(e); }
 		if (op.kind == OP_SUCCEED) n.succeed(op.a); else n.fail(op.a);
+		s.extSuccess.resize(size_t(sh.n), 0); s.extFailure.resize(size_t(sh.n), 0);
+		(op.kind == OP_SUCCEED ? s.extSuccess : s.extFailure)[size_t(op.a)] = 1;
 		break;
 	case OP_PLAN_APPEND: {
 		if (!act || !(caps & CAP_PLANS) || op.a < 0 || op.a >= sh.nRegions || !validState(op.c) || !validState(op.d)) break;
@@ -538,7 +540,7 @@ void World::afterOp(int i, const Op& op, const Obs& before) {
 	// circumstances under which a documented defect is known to act: violations raised for this op carry its tag
 	circumstance.clear();
 	for (auto& e : h.trace)
-		if (e.k == EV_RET && e.method == M_SELECT && h.shape->isRegion(h.shape->kids[size_t(e.state)][size_t(e.a)])) { circumstance = "select_names_region"; probe("select_named_region"); break; }
+		if (e.k == EV_RET && e.method == M_SELECT && h.shape->isRegion(h.shape->kids[size_t(e.state)][size_t(e.a)])) { probe("select_named_region"); break; }
 	checkAsserts(i, op);
 	if (result.tainted) return;
 	if (!s.obs.alive) return;
@@ -581,6 +583,11 @@ void World::afterOp(int i, const Op& op, const Obs& before) {
 	modelAfterOp(*this, i, op, before);
 	checkPayloads(i, op, before);
 	checkPlansStorage(i, op, before);
+	// a state that exits takes its marks with it; exit() and load() wipe all of them
+	if (!s.extSuccess.empty()) {
+		for (auto& e : h.trace) if (e.k == EV_CB && e.method == M_EXIT && e.state >= 0 && e.state < int(s.extSuccess.size()) && op.kind != OP_UPDATE && op.kind != OP_REACT) { s.extSuccess[size_t(e.state)] = 0; s.extFailure[size_t(e.state)] = 0; }
+		if (op.kind == OP_EXIT || op.kind == OP_SNAPSHOT || op.kind == OP_DELIVER) { std::fill(s.extSuccess.begin(), s.extSuccess.end(), 0); std::fill(s.extFailure.begin(), s.extFailure.end(), 0); }
+	}
 
 	if (cov && collect) {
 		uint64_t hsh = std::hash<std::string>()(sh.name);
@@ -719,6 +726,8 @@ RunResult World::run() {
 			std::string tag;
 			if (a.expr.find("_count < CAPACITY") != std::string::npos) tag = "array_overflow";
 			if (a.expr.find("_core.requests.count() == 0") != std::string::npos) tag = "substitution_limit_leftover";
+			if (a.expr.find("applyRequests(control, transitions, count)") != std::string::npos) tag = "replay_of_history_without_net_effect";
+			if (a.expr.find("parent.forkId > 0") != std::string::npos || a.expr.find("parent.forkId != 0") != std::string::npos) tag = "schedule_root";
 			if (a.expr.find("tasksFailures .get(stateId)") != std::string::npos || a.expr.find("tasksSuccesses.get(stateId)") != std::string::npos) tag = "status_mark_on_inactive_state";
 			Harness* h = (curNode >= 0 && curNode < int(slots.size())) ? slots[size_t(curNode)].h.get() : nullptr;
 			if (h && a.expr.find("registry.isActive(HEAD_ID)") != std::string::npos && h->inActivation && h->shape->isOrtho(0)) tag = "activation_request_ortho_root";
